@@ -60,7 +60,8 @@ def run(tier):
     for k, a in enumerate(chosen):
         scs.append(dict(sid="add[%s|ref=%s|dangling=%d|helpers=%s]" % (
             ",".join("%s:%s" % (o["model"], o["req"]) for o in a), refs[k % len(refs)], int(k % 7 == 3), helpers[k % len(helpers)]),
-            adds=a, refs=refs[k % len(refs)], dangling=(k % 7 == 3), helpers=helpers[k % len(helpers)]))
+            adds=a, refs=refs[k % len(refs)], dangling=(k % 7 == 3), helpers=helpers[k % len(helpers)],
+            reset_after=(k % 3 == 0)))
     for i, sc in enumerate(scs):
         sc["tid"] = i + 1
     res = run_tasks("vh.builddrv:run_build", scs, nproc=NCPU, timeout=300)
